@@ -3,6 +3,7 @@ from __future__ import annotations
 
 import ast
 import re
+from fractions import Fraction
 
 from ..symex import Symex, Obj, Func
 from ..terms import (T, sym, show, subterms, args_of, strip, expand_products, canon, is_num, t_mul, t_add, t_pow, calls)
@@ -571,80 +572,158 @@ def r11f(ctx):
                   key=f"partition {name}")
 
 
+# ---------------------------------------------------------------------------
+# R11h / R11i: the pool of matches of a long intermediate (concrete decision tables)
+
+LV = FI + "LongItmdVariants."
+
+
+def _pools():
+    """Small pools {itmd_indices: {remainder: {positions: [(term_i, pref, unit pref)]}}}: hand-made corner cases and a
+    deterministic enumeration (position order, empty lists, terms listed at none / some / all positions)."""
+    F = Fraction
+    yield {("i", "a"): {"R0": {(0,): [(0, 1, 1), (1, 2, 1)], (1,): [(2, 1, 1)], (0, 1): [(0, 1, 1), (3, 1, 2)]}, "R1": {(0,): [(5, 1, 1)]}},
+           ("j", "b"): {"R2": {(1,): [(0, 1, 1)], (0,): [(4, 1, 1), (0, 3, 1)]}}}
+    yield {("i", "a"): {"R0": {(0,): [(4, 1, 1)], (1,): [(0, 1, 1)], (2,): [(0, F(1, 2), 1), (0, 1, -1), (1, 1, 1)]}}}
+    yield {("i", "a"): {"R0": {(0,): [(0, 1, 1)], (1,): [(1, 1, 1)]}, "R1": {(0,): [(2, 1, 1)]}}, ("j", "b"): {"R0": {(0,): [(0, 1, 1)]}}}
+    yield {("i", "a"): {"R0": {}}, ("j", "b"): {}}
+    yield {}
+    import itertools
+    import random
+    rnd = random.Random(11)
+    for n in range(40):
+        pool = {}
+        for ik in range(rnd.randint(1, 3)):
+            rems = {}
+            for rk in range(rnd.randint(0, 3)):
+                pos = {}
+                for pk in rnd.sample([(0,), (1,), (2,), (0, 1), (1, 2), (0, 1, 2)], rnd.randint(0, 4)):
+                    pos[pk] = [(rnd.randint(0, 4), rnd.choice([1, -1, F(1, 2)]), rnd.choice([1, -1, 2])) for _ in range(rnd.randint(0, 3))]
+                rems[f"R{rk}"] = pos
+            pool[("i", "a", ik)] = rems
+        yield pool
+
+
+def _copy_pool(p):
+    return {k: {r: {pos: list(ms) for pos, ms in d.items()} for r, d in v.items()} for k, v in p.items()}
+
+
 def r11h(ctx):
-    """pool clean-up of LongItmdVariants must visit every entry"""
+    """pool clean-up of LongItmdVariants: evaluated on concrete pools against the specification"""
     rule = "R11h"
-    for name in ("remove_used_terms", "clean_empty"):
-        fn = ctx.model.fn(FI + f"LongItmdVariants.{name}")
-        esc = [n for n in walk_fn(fn) if isinstance(n, (ast.Break, ast.Return, ast.Continue))]
-        ctx.check(rule, fn, not esc, f"{name}: every pool entry is visited",
-                  f"{name} leaves its sweep early (`{U(esc[0]) if esc else ''}` at line {esc[0].lineno if esc else 0}): entries of already "
-                  "used terms stay in the pool and the term is factored a second time", key=f"{name} exhaustive")
-    ru = ctx.model.fn(FI + "LongItmdVariants.remove_used_terms")
-    td = [a for a in walk_fn(ru) if isinstance(a, ast.Assign) and U(a.targets[0]) == "to_delete"]
-    ctx.check(rule, ru, len(td) == 1 and U(td[0].value) == "[i for i, m in enumerate(matches) if m[0] in used_terms]",
-              "every match of a used term is deleted", "selection of the matches to delete changed", key="to_delete")
-    dl = [n for n in walk_fn(ru) if isinstance(n, ast.For) and U(n.iter) == "sorted(to_delete, reverse=True)"]
-    ctx.check(rule, ru, len(dl) == 1 and U(dl[0].body[0]) == "del matches[i]", "deleted from the back", "deletion order changed", key="delete order")
-    its = sorted(U(n.iter) for n in walk_fn(ru) if isinstance(n, ast.For))
-    ctx.check(rule, ru, its == ["empty_pos", "positions.items()", "remainders.values()", "self.values()", "sorted(to_delete, reverse=True)"],
-              "all itmd indices, remainders and positions swept", f"loops {its}", key="sweep loops")
+    ru = ctx.model.fn(LV + "remove_used_terms")
+    ce = ctx.model.fn(LV + "clean_empty")
+    sx = Symex(ctx.model, inline=lambda q: True, what="LongItmdVariants clean-up")
+    n = 0
+    for k, pool in enumerate(_pools()):
+        for used in ([0], [0, 2], [1, 3, 4], [], [0, 1, 2, 3, 4, 5]):
+            # specification: no match of a used term survives anywhere, every other match survives in order, positions
+            # whose list became empty disappear (positions empty before stay as they are only if they were non-empty)
+            want = {}
+            for ik, rems in pool.items():
+                want[ik] = {}
+                for r, poss in rems.items():
+                    want[ik][r] = {}
+                    for pos, ms in poss.items():
+                        left = [m for m in ms if m[0] not in used]
+                        if left:
+                            want[ik][r][pos] = left
+            st = {}
+
+            def args():
+                st["p"] = _copy_pool(pool)
+                return dict(self=st["p"], used_terms=list(used))
+            outs = sx.run(ru, args)
+            ok = len(outs) == 1 and outs[0].kind == "return" and st["p"] == want
+            n += 1
+            if not ok:
+                left = sorted({m[0] for rems in st["p"].values() for poss in rems.values() for ms in poss.values() for m in ms} & set(used))
+                ctx.bad(rule, ru, f"remove_used_terms({used}) on the pool {pool} leaves {st['p']}, expected {want}"
+                        + (f": matches of the used terms {left} stay in the pool and the terms are factored a second time" if left else ""),
+                        key=f"remove_used_terms pool {k} used {used}")
+            else:
+                ctx.ok(rule, ru, f"remove_used_terms({used}) on pool {k}: every match of a used term removed, everything else kept",
+                       key=f"remove_used_terms pool {k} used {used}")
+            # clean_empty afterwards: exactly the empty remainders and the indices without remainders vanish
+            want2 = {ik: {r: poss for r, poss in rems.items() if poss} for ik, rems in want.items()}
+            want2 = {ik: rems for ik, rems in want2.items() if rems}
+            st2 = {}
+
+            def args2():
+                st2["p"] = _copy_pool(want)
+                return dict(self=st2["p"])
+            outs = sx.run(ce, args2)
+            ok = len(outs) == 1 and outs[0].kind == "return" and st2["p"] == want2
+            ctx.check(rule, ce, ok, f"clean_empty on pool {k}/{used}: empty remainders and index entries removed, nothing else",
+                      f"clean_empty on {want} leaves {st2['p']}, expected {want2}", key=f"clean_empty pool {k} used {used}")
+    ctx.floor(rule, "pool clean-up evaluations", n, 100)
 
 
 def r11i(ctx):
-    """both stored prefactors of a match refer to the stored reference remainder"""
+    """LongItmdVariants.add: a match is filed under the first stored remainder it can be mapped onto, with BOTH stored
+    prefactors multiplied by the sign of that mapping; otherwise it founds a new remainder with the prefactors as given"""
     rule = "R11i"
-    fn = ctx.model.fn(FI + "LongItmdVariants.add")
-    params = [a.arg for a in fn.args.args]
-    cmp_calls = [c for c in calls_in(fn) if call_name(c) == "_compare_remainder"]
-    ctx.floor(rule, "remainder comparison in LongItmdVariants.add", len(cmp_calls), 1)
-    st = enclosing_stmt(cmp_calls[0])
-    if not (isinstance(st, ast.Assign) and isinstance(st.targets[0], ast.Name)):
-        raise AnalysisError("R11i: result of _compare_remainder is not bound to a name")
-    sign = st.targets[0].id
-    loop = enclosing(st, ast.For)
-    if loop is None:
-        raise AnalysisError("R11i: _compare_remainder is not called in the sweep over stored remainders")
-    # the stored records: tuples (term_i, prefactor, unit prefactor) appended / stored in lists
-    recs = [t for t in walk_fn(fn) if isinstance(t, ast.Tuple) and len(t.elts) == 3 and all(isinstance(x, ast.Name) for x in t.elts)
-            and isinstance(t.ctx, ast.Load) and t.elts[0].id == params[1]]
-    ctx.floor(rule, "stored match records", len(recs), 2)
-    names = {(r.elts[1].id, r.elts[2].id) for r in recs}
-    if len(names) != 1:
-        raise AnalysisError(f"R11i: stored records differ in shape: {names}")
-    pref, unit = names.pop()
+    fn = ctx.model.fn(LV + "add")
+    F = Fraction
+    IDX = ("i", "a")
+    cases = []
+    for pref, unit in ((F(1, 2), 3), (2, 2), (-1, F(1, 4)), (1, 1)):
+        for signs in (("R0", -1), ("R0", 1), ("R1", -1), ("R1", 1), (None, None)):
+            cases.append((pref, unit, signs))
+    n = 0
+    for pref, unit, (hit, sign) in cases:
+        for existing in ("other", "same", "none", "dup", "dupsign"):
+            if existing == "none":
+                pool0 = {}
+            else:
+                pool0 = {IDX: {"R0": {(0, 1): [(7, 1, 1)]}, "R1": {(2,): [(8, 1, 1)]}}, ("j", "b"): {"R0": {(0, 1): [(9, 1, 1)]}}}
+                if existing == "same":
+                    pool0[IDX][hit or "R0"][(0, 1)] = [(1, 5, 5)]
+                if existing in ("dup", "dupsign") and hit is not None:
+                    pool0[IDX][hit][(0, 1)] = [(1, pref * sign, unit * sign * (-1 if existing == "dupsign" else 1))]
+            st = {}
+            seen = []
 
-    def scalings(name):
-        out = []
-        for n in walk_fn(loop):
-            if isinstance(n, ast.AugAssign) and U(n.target) == name and isinstance(n.op, ast.Mult):
-                out.append(U(n.value))
-            elif isinstance(n, ast.Assign) and U(n.targets[0]) == name and isinstance(n.value, ast.BinOp) and isinstance(n.value.op, ast.Mult):
-                fs = [U(f) for f in c13._flatten(n.value)]
-                if name in fs:
-                    fs.remove(name)
-                    out.extend(fs)
-                else:
-                    out.append("<rebound>")
-            elif isinstance(n, (ast.Assign, ast.AugAssign)) and U(n.targets[0] if isinstance(n, ast.Assign) else n.target) == name:
-                out.append("<rebound>")
-        return sorted(out)
-    sp, su = scalings(pref), scalings(unit)
-    ctx.check(rule, loop, sp == [sign], f"`{pref}` is mapped onto the stored remainder by the sign `{sign}` of _compare_remainder",
-              f"`{pref}` is rescaled by {sp} instead of the sign `{sign}` that maps the remainder onto the stored reference remainder",
-              key="prefactor sign")
-    ctx.check(rule, loop, su == sp, f"`{unit}` receives the same sign: both stored prefactors refer to the stored remainder",
-              f"`{pref}` is rescaled by {sp} but `{unit}` by {su}: the record mixes a prefactor relative to the stored remainder with a unit "
-              "prefactor relative to the unmapped remainder, and _factor_mixed_prefactors completes the term with the wrong sign",
-              key="unit sign")
-    # the new-remainder branch stores the record unscaled against its own remainder
-    newb = [r for r in recs if enclosing(r, ast.For) is not loop]
-    ctx.check(rule, fn, len(newb) >= 1, "a new remainder becomes the reference with the unscaled prefactors", "the new-remainder branch vanished",
-              key="new remainder")
-    cons = ctx.model.fn(FI + "_factor_mixed_prefactors")
-    a = {U(x.targets[0]): U(x.value).replace(" ", "") for x in walk_fn(cons) if isinstance(x, ast.Assign)}
-    ctx.check(rule, cons, any("unit_factors[term_i]" in v for v in a.values()), "consumer: the completion uses the stored unit prefactor",
-              "the consumer of the unit prefactor changed", key="consumer")
+            def cmp_model(sx_, a, kw):
+                ref = kw.get("ref_remainder", a[1] if len(a) > 1 else None)
+                seen.append((kw.get("remainder", a[0] if a else None), ref, kw.get("itmd_indices", a[2] if len(a) > 2 else None)))
+                return sign if ref == hit else None
+            sx = Symex(ctx.model, inline=lambda q: not q.endswith("_compare_remainder"), hooks={"_compare_remainder": cmp_model},
+                       what="LongItmdVariants.add")
+
+            def args():
+                st["p"] = _copy_pool(pool0)
+                del seen[:]
+                return dict(self=st["p"], term_i=1, itmd_indices=IDX, remainder="NEW", matching_itmd_terms=(1, 0), prefactor=pref,
+                            unit_factorization_pref=unit)
+            outs = sx.run(fn, args)
+            want = _copy_pool(pool0)
+            want.setdefault(IDX, {})
+            if hit is not None and hit in want[IDX]:
+                rec = (1, pref * sign, unit * sign)
+                lst = want[IDX][hit].setdefault((0, 1), [])
+                if not any(m[0] == 1 and m[1] == rec[1] and abs(m[2]) == abs(rec[2]) for m in lst):
+                    lst.append(rec)
+            else:
+                want[IDX]["NEW"] = {(0, 1): [(1, pref, unit)]}
+            got = st.get("p")
+            ok = len(outs) == 1 and outs[0].kind == "return" and got == want
+            n += 1
+            what = f"add(pref={pref}, unit={unit}) with stored remainders matching {hit} by {sign} [{existing}]"
+            why = f"{what}: pool becomes {got}, expected {want}"
+            if not ok and got is not None and hit is not None:
+                recs = [m for m in got.get(IDX, {}).get(hit, {}).get((0, 1), []) if m[0] == 1]
+                if recs and recs[-1][1] == pref * sign and recs[-1][2] != unit * sign:
+                    why += (": the stored prefactor refers to the stored remainder, the unit factorisation prefactor to the unmapped one; "
+                            "_factor_mixed_prefactors then completes the term with the wrong sign")
+            ctx.check(rule, fn, ok, f"{what}: record filed with both prefactors referring to the stored remainder", why,
+                      key=f"add {pref} {unit} {hit} {sign} {existing}")
+            # the comparison is made against the stored remainders of the same itmd indices, with those indices fixed
+            okc = all(r == "NEW" and i == IDX for r, ref, i in seen) and (existing == "none" or [ref for _, ref, _ in seen] ==
+                                                                          (["R0", "R1"][:(["R0", "R1"].index(hit) + 1) if hit else 2]))
+            ctx.check(rule, fn, okc, f"{what}: compared with the stored remainders of these itmd indices in order",
+                      f"{what}: _compare_remainder called with {seen}", key=f"add compare {pref} {unit} {hit} {sign} {existing}")
+    ctx.floor(rule, "evaluations of LongItmdVariants.add", n, 60)
 
 
 def run(ctx):
